@@ -29,7 +29,7 @@ def _finish(r):
 def _models(tier, seed, n_quick=120, n_thorough=1200, depth=2, width=3, **kw):
     import puan
     rng = random.Random(seed * 7919 + 13)
-    pool = leaf_pool(6)
+    pool = leaf_pool(8)
     n = n_quick if tier == "quick" else n_thorough
     out = 0
     tries = 0
@@ -512,3 +512,224 @@ def _wd_strict(model):
             onpath.pop()
     walk(model)
     return ok
+
+
+def history_sequences(tier, seed):
+    """Value correctness on a model object that has been queried before (C03/C06/C08 hold for every validated model,
+    also one that was evaluated a moment ago): the same object is evaluated / assumed / reduced / negated over
+    adversarial sequences of interpretations -- the same dict object mutated in place, leaf values -1 then -2
+    (hash(-1) == hash(-2)), tuples (-1,k)/(-2,k), Bounds(1,2)/Bounds(0,3) (equal hash) -- and every answer is compared
+    with the answer of a freshly unpickled copy.  Interpretations never name sub-proposition ids (known finding D2)."""
+    import puan
+    import pickle
+    r = _result("rt.history_sequences", "random validated models over leaves incl. (-2,2), (0,3), (-3,-1), 16-bit x adversarial "
+                "interpretation sequences of length 3..4 on ONE object (in-place mutated dict, -1/-2, hash-colliding tuples and "
+                "Bounds) x {evaluate, evaluate_propositions, assume+evaluate, reduce after assume, negate+evaluate, "
+                "is_tautology/is_contradiction}; non-trivial = distinct (model, sequence kind)")
+    for m0, rng in _models(tier, seed + 77, n_quick=80, n_thorough=600, depth=2):
+        blob = pickle.dumps(m0)
+        leaves = leaves_of(m0)
+        ints = [v for v in leaves if v.bounds.lower <= -2 and v.bounds.upper >= -1]
+        wide = [v for v in leaves if v.bounds.upper - v.bounds.lower >= 3]
+        base = {v.id: rng.randint(v.bounds.lower, min(v.bounds.upper, v.bounds.lower + 3)) for v in leaves}
+        seqs = []
+        # same dict object mutated in place
+        d = dict(base)
+        flip = rng.choice(leaves)
+        seqs.append(("inplace", [d, (d, {flip.id: flip.bounds.upper}), (d, {flip.id: flip.bounds.lower})]))
+        if ints:
+            t = rng.choice(ints)
+            seqs.append(("-1/-2", [dict(base, **{t.id: -1}), dict(base, **{t.id: -2}), dict(base, **{t.id: -1})]))
+            hi = t.bounds.upper
+            seqs.append(("tuple-collide", [dict(base, **{t.id: (-1, hi)}), dict(base, **{t.id: (-2, hi)})]))
+        if wide:
+            t = rng.choice(wide)
+            lo = t.bounds.lower
+            seqs.append(("bounds-collide", [dict(base, **{t.id: puan.Bounds(lo + 1, lo + 2)}),
+                                            dict(base, **{t.id: puan.Bounds(lo, lo + 3)}),
+                                            dict(base, **{t.id: (lo + 1, lo + 2)})]))
+        partial = {k: v for k, v in base.items() if rng.random() < 0.5}
+        seqs.append(("partial", [dict(partial), dict(base), dict(partial)]))
+        for kind, seq in seqs:
+            obj = pickle.loads(blob)
+            for step, item in enumerate(seq):
+                if isinstance(item, tuple):
+                    item[0].update(item[1])
+                    interp = item[0]
+                else:
+                    interp = item
+                ref = pickle.loads(blob)
+                ref_interp = dict(interp)
+                r["evaluations"] += 1
+                r["_seen"].add((m0.to_text(), kind))
+                w = {"model": m0.to_text(), "sequence": kind, "step": step,
+                     "interpretation": {str(k): str(v) for k, v in interp.items()}}
+                try:
+                    checks = [
+                        ("evaluate", lambda m, i: str(m.evaluate(i))),
+                        ("evaluate_propositions", lambda m, i: str(sorted((str(k), str(v)) for k, v in m.evaluate_propositions(i).items()))),
+                        ("assume.evaluate", lambda m, i: str(m.assume(i).evaluate({}))),
+                        ("assume.reduce", lambda m, i: (lambda x: x.to_text() if hasattr(x, "to_text") else repr(x))(m.assume(i).reduce())),
+                        ("negate.evaluate", lambda m, i: str(m.negate().evaluate(i))),
+                        ("flags", lambda m, i: str((m.is_tautology, m.is_contradiction, m.equation_bounds))),
+                        ("reduce", lambda m, i: (lambda x: x.to_text() if hasattr(x, "to_text") else repr(x))(m.reduce())),
+                    ]
+                    for name, fn in checks:
+                        got = fn(obj, interp)
+                        want = fn(pickle.loads(blob), dict(ref_interp))
+                        if got != want:
+                            _viol(r, f"history.{name}-differs-from-fresh-object", w, got=got[:300], want=want[:300])
+                except BaseException as e:
+                    _viol(r, "history.raises", w, error=repr(e)[:300])
+    return _finish(r)
+
+
+def c06_partial_soundness(tier, seed):
+    """C06 end to end: bounds reported for a partial / interval interpretation contain the value under every completion;
+    tautology / contradiction flags and equation bounds against enumeration"""
+    import puan
+    import pickle
+    r = _result("rt.c06_partial_soundness", "random validated models (all classes, leaves incl. negative, (0,3) and 16-bit default "
+                "range, negative signs) x partial interpretations (ints, sub-range tuples, Bounds) x completions (exhaustive "
+                "when <= 64 else sampled incl. range end points); flags on one-level nodes incl. 16-bit leaves; non-trivial = "
+                "distinct (model, constant reported?)")
+    for m0, rng in _models(tier, seed + 88, n_quick=100, n_thorough=800, depth=2):
+        if not _no_prefixed(m0):
+            continue
+        blob = pickle.dumps(m0)
+        leaves = leaves_of(m0)
+        for _ in range(3):
+            interp, restricted = {}, {}
+            for v in leaves:
+                lo, hi = v.bounds.lower, v.bounds.upper
+                c = rng.random()
+                if c < 0.35:
+                    x = rng.choice([lo, hi, rng.randint(lo, min(hi, lo + 3))])
+                    interp[v.id] = x
+                    restricted[v.id] = (x, x)
+                elif c < 0.55 and hi > lo:
+                    a = rng.choice([lo, lo + 1]) if hi - lo > 1 else lo
+                    b = rng.choice([hi, max(a, hi - 1)])
+                    interp[v.id] = (a, b) if rng.random() < 0.5 else puan.Bounds(a, b)
+                    restricted[v.id] = (a, b)
+                else:
+                    restricted[v.id] = (lo, hi)
+            props = pickle.loads(blob).evaluate_propositions(dict(interp))
+            subs = [x for x in m0.flatten() if not is_var(x)]
+            doms = []
+            for v in leaves:
+                a, b = restricted[v.id]
+                doms.append(list(range(a, b + 1)) if b - a <= 3 else sorted({a, a + 1, b - 1, b, min(max(0, a), b), min(max(-1, a), b)}))
+            total = 1
+            for d_ in doms:
+                total *= len(d_)
+            combos = itertools.product(*doms) if total <= 64 else [tuple(rng.choice(d_) for d_ in doms) for _ in range(64)]
+            for combo in combos:
+                env = {v.id: x for v, x in zip(leaves, combo)}
+                r["evaluations"] += 1
+                for s in subs:
+                    t = ref_truth(s, env)
+                    b = props[s.id]
+                    if not (b.lower <= t <= b.upper):
+                        _viol(r, "c06.bounds-exclude-a-completion", {"model": m0.to_text(), "interpretation": {str(k): str(x) for k, x in interp.items()},
+                                                                     "completion": {str(k): x for k, x in env.items()}, "node": str(s.id)},
+                              reported=str(b), value=t)
+            r["_seen"].add((m0.to_text(), props[m0.id].constant is not None))
+        # flags on every compound of the model: children valuations inside bounds
+        for s in [x for x in m0.flatten() if not is_var(x)]:
+            los = [c.bounds.lower for c in s.propositions]
+            his = [c.bounds.upper for c in s.propositions]
+            lo_sum = s.sign * sum(los if s.sign > 0 else his)
+            hi_sum = s.sign * sum(his if s.sign > 0 else los)
+            eb = s.equation_bounds
+            r["evaluations"] += 1
+            if (int(eb[0]), int(eb[1])) != (lo_sum - s.value, hi_sum - s.value):
+                _viol(r, "c06.equation-bounds-not-exact", {"model": s.to_text()}, got=[int(eb[0]), int(eb[1])],
+                      want=[lo_sum - s.value, hi_sum - s.value])
+            if bool(s.is_tautology) != (lo_sum >= s.value) or bool(s.is_contradiction) != (hi_sum < s.value):
+                _viol(r, "c06.flags", {"model": s.to_text()}, taut=bool(s.is_tautology), contra=bool(s.is_contradiction))
+    return _finish(r)
+
+
+def c08_reduce_e2e(tier, seed):
+    """C08 end to end on *families of near-identical models queried one after the other in one process*: reduce() keeps
+    the meaning (reference truth function, constants substituted) and leaves no constant behind.  Variants differ only in
+    ids with/without spaces, in hash-colliding leaf bounds, or in one threshold -- the cases a wrongly keyed cache mixes up."""
+    import puan
+    import puan.logic.plog as pg
+    import pickle
+    r = _result("rt.c08_reduce_e2e", "random validated models with some leaves fixed by bounds or by assume() x 3 near-identical "
+                "variants each (ids with spaces vs without, leaf bounds (0,3)/(1,2) and (-1,0)/(-2,0), threshold +1), reduced in "
+                "sequence in one process x assignments of the free leaves; non-trivial = distinct (variant kind, collapsed to a "
+                "constant?)")
+    rng = random.Random(seed + 99)
+    n = 60 if tier == "quick" else 500
+
+    def build(spec, rename, bmap, dv):
+        kind, vid, val, kids = spec
+        ch = []
+        for k in kids:
+            if isinstance(k, tuple) and len(k) == 4:
+                ch.append(build(k, rename, bmap, dv))
+            else:
+                ch.append(puan.variable(rename(k[0]), bmap.get(k[1], k[1])))
+        return pg.AtLeast(val + (dv if kind == "top" else 0), ch, variable=rename(vid), sign=spec_sign[id(spec)])
+
+    for _ in range(n):
+        spec_sign = {}
+        names = iter(["red apple", "green pear", "b c", "d", "e f", "g", "h i", "j", "k l", "m"])
+        bpal = [(0, 1), (0, 1), (0, 3), (-1, 0), (1, 1), (0, 0), (2, 2), (-2, 2)]
+
+        def mk(d, top=False):
+            kids = []
+            for _ in range(rng.randint(2, 3)):
+                try:
+                    if d > 0 and rng.random() < 0.4:
+                        kids.append(mk(d - 1))
+                    else:
+                        kids.append((next(names), rng.choice(bpal)))
+                except StopIteration:
+                    break
+            sp = ("top" if top else "sub", next(names), rng.randint(0, 2), kids)
+            spec_sign[id(sp)] = rng.choice([1, 1, -1])
+            return sp
+        try:
+            spec = mk(1, True)
+        except StopIteration:
+            continue
+        variants = [("plain", lambda s: s, {}, 0), ("no-space ids", lambda s: s.replace(" ", ""), {}, 0),
+                    ("colliding bounds", lambda s: s, {(0, 3): (1, 2), (-1, 0): (-2, 0)}, 0), ("threshold+1", lambda s: s, {}, 1)]
+        for vname, rename, bmap, dv in variants:
+            try:
+                m = build(spec, rename, bmap, dv)
+            except Exception:
+                continue
+            if m.errors() != [] or not well_defined(m):
+                continue
+            leaves = leaves_of(m)
+            free = [v for v in leaves if v.bounds.constant is None]
+            fixed = {v.id: v.bounds.constant for v in leaves if v.bounds.constant is not None}
+            red = pickle.loads(pickle.dumps(m)).reduce()
+            r["evaluations"] += 1
+            r["_seen"].add((vname, is_var(red)))
+            w = {"model": m.to_text(), "variant": vname}
+            # no constants left
+            if not is_var(red):
+                for x in red.flatten():
+                    if x.bounds.constant is not None:
+                        _viol(r, "c08.constant-left-in-reduced-model", w, node=str(x.id))
+                        break
+            for env in assignments(free, rng, 24):
+                full = dict(env)
+                full.update(fixed)
+                want = ref_truth(m, full)
+                if is_var(red):
+                    got = red.bounds.constant if red.bounds.constant is not None else env.get(red.id)
+                else:
+                    e2 = {k: v for k, v in env.items()}
+                    got = pickle.loads(pickle.dumps(red)).evaluate(e2).constant
+                if got != want:
+                    _viol(r, "c08.meaning-changed", dict(w, env={str(k): v for k, v in env.items()}), got=str(got), want=want,
+                          reduced=red.to_text() if hasattr(red, "to_text") else repr(red))
+                    break
+    return _finish(r)
